@@ -1,7 +1,7 @@
 (* The abstract array that a vnadata_t is documented to be (vnadata(3)): a parameter type,
    dimensions, total functions for the frequencies, the flattened matrices and the reference
    impedances in one of two modes, and the save options.  No allocations, no memory, no faults.
-   The operations are written from the manual page, independently of DataModel:
+   The operations are written from the manual page:
      - resize keeps the flattened prefix common to the old and the new box and presents every
        other cell / frequency / impedance with its initial value (0, 0, 50 ohm);
      - init = resize to the empty undefined object, all impedances back to ordinary 50 ohm,
@@ -10,11 +10,59 @@
        point / row / column updates inside the logical box;
      - the ordinary z0 setters discard per-frequency impedances (everything else back to 50 ohm),
        the per-frequency setters establish per-frequency mode preserving the ordinary values;
-       get_z0 / get_z0_vector fail in per-frequency mode, get_fz0(_vector) work in both.
+       get_z0 / get_z0_vector fail in per-frequency mode, get_fz0(_vector) work in both;
+     - the type / dimension rule (`dims_fit`, `type_rule` below) is stated here on its own, not
+       taken from DataModel.validate_type; RefineProofs.validate_type_is_manual_rule proves that
+       the model's function (read from vnadata_alloc.c validate_type) decides exactly this rule;
+     - the length a caller's vector must have for each vector-taking setter (`vec_need`,
+       `vec_ok`): the library cannot check it, so it is a premise of the refinement theorems.
+
+   What is shared with DataModel (this file imports it for the vocabulary only): the types of the
+   interface - parameter type codes `vpt` / `vpt_of_Z`, operations `op`, outcomes `outcome` /
+   `payload` - the interval test `in_range i n` (DataProofs.in_range_spec: true iff 0 <= i < n),
+   the C constant INT_MAX, and the record `vd` in the abstraction function `abs` (forget the
+   allocations).  No rule of the library is taken from DataModel.
    No proofs in this file. *)
 Require Import List ZArith Bool.
 Require Import LV.Data.DataModel.
 Import ListNotations.
+
+(* ---------------------------------------------------------------- type / dimension rule *)
+(* vnadata(3): "The type argument must be one of VPT_UNDEF, VPT_S, ... VPT_ZIN, and the dimensions
+   must be consistent with the parameter type."  What "consistent" means is what the kinds of
+   network parameters are (DESCRIPTION; the diagnostics of the library name the three shapes
+   "must be square", "must be 2 x 2", "expected row vector for Zin"):
+     s, z, y        describe an n-port for any n: an n x n matrix;
+     t, u, h, g, a, b   (scattering-transfer, inverse scattering-transfer, hybrid, inverse hybrid,
+                    ABCD, inverse ABCD) are defined for two-port networks only: 2 x 2;
+     zin            is the vector of input impedances, one per port: 1 x n;
+     undefined      carries no interpretation: any rows x columns.
+   `dims_fit` is that statement as a relation; `type_rule` is its decision procedure, used by the
+   executable specification below (RefineProofs.type_rule_spec: type_rule = true <-> dims_fit). *)
+Definition n_port_type (t : vpt) : Prop := t = VS \/ t = VZ \/ t = VY.
+Definition two_port_only_type (t : vpt) : Prop := In t [VT; VU; VH; VG; VA; VB].
+
+Inductive dims_fit : vpt -> nat -> nat -> Prop :=
+| fit_undefined : forall r c, dims_fit VUNDEF r c
+| fit_n_port : forall t n, n_port_type t -> dims_fit t n n
+| fit_two_port : forall t, two_port_only_type t -> dims_fit t 2 2
+| fit_zin : forall n, dims_fit VZIN 1 n.
+
+Inductive shape := AnyDims | SquareDims | TwoByTwo | OneRow.
+Definition shape_of (t : vpt) : shape :=
+  match t with
+  | VUNDEF => AnyDims
+  | VS | VZ | VY => SquareDims
+  | VT | VU | VH | VG | VA | VB => TwoByTwo
+  | VZIN => OneRow
+  end.
+Definition type_rule (t : vpt) (r c : nat) : bool :=
+  match shape_of t with
+  | AnyDims => true
+  | SquareDims => Nat.eqb r c
+  | TwoByTwo => Nat.eqb r 2 && Nat.eqb c 2
+  | OneRow => Nat.eqb r 1
+  end.
 
 Section Spec.
 Variable V : Type.
@@ -69,7 +117,7 @@ Definition resize_cond (tz r c f : Z) : option vpt :=
   match vpt_of_Z tz with
   | Some t =>
     if ((0 <=? r) && (0 <=? c) && (0 <=? f))%Z
-       && validate_type t (Z.to_nat r) (Z.to_nat c)
+       && type_rule t (Z.to_nat r) (Z.to_nat c)
        && (Z.of_nat (Z.to_nat r) * Z.of_nat (Z.to_nat c) <=? INT_MAX)%Z
     then Some t else None
   | None => None
@@ -102,7 +150,7 @@ Definition spec_step (a : arr) (o : op V) : arr * outcome V :=
   | OResize _ t r c f => spec_resize_op a t r c f
   | OSetType _ tz =>
       match vpt_of_Z tz with
-      | Some t => if validate_type t (a_rows a) (a_cols a)
+      | Some t => if type_rule t (a_rows a) (a_cols a)
                   then (mkarr t (a_rows a) (a_cols a) (a_freqs a) (a_perf a) (a_fv a) (a_dat a) (a_z0 a)
                               (a_fz0 a) (a_ftype a) (a_fmt a) (a_fprec a) (a_dprec a), ok V)
                   else sfail a
@@ -182,6 +230,35 @@ Definition spec_step (a : arr) (o : op V) : arr * outcome V :=
   | OSetFormat _ k => (with_meta a (a_ftype a) k (a_fprec a) (a_dprec a), ok V)
   | OSetFprec _ p => if (p <? 1)%Z then sfail a else (with_meta a (a_ftype a) (a_fmt a) p (a_dprec a), ok V)
   | OSetDprec _ p => if (p <? 1)%Z then sfail a else (with_meta a (a_ftype a) (a_fmt a) (a_fprec a) p, ok V)
+  end.
+
+(* ---------------------------------------------------------------- caller-supplied vectors *)
+(* The vector-taking setters read a documented number of elements from a buffer of the caller
+   (vnadata(3): "The length of frequency_vector must match frequencies"; matrix = "the flattened
+   matrix elements in row-major order", rows x columns of them; set_from_vector: "a vector with
+   length at least the number of frequencies"; z0_vector: "the length of z0_vector is the maximum
+   of rows and columns").  A C function cannot check the length of the buffer it is handed; passing
+   a shorter one is a caller error (undefined behaviour) outside this specification.  `vec_need`
+   is the documented length, `vec_ok a o` says that the vector of operation o has at least that
+   many elements; for these operations spec_step above reads `nth k l _` only for k below the
+   documented length, so under vec_ok the default of nth is never used. *)
+Definition vec_need (a : arr) (o : op V) : option (nat * nat) :=      (* (documented, supplied) *)
+  match o with
+  | OSetFreqVec _ l => Some (a_freqs a, length l)
+  | OSetMatrix _ _ l => Some (a_cells a, length l)
+  | OSetFromVec _ _ _ l => Some (a_freqs a, length l)
+  | OSetZ0Vec _ l => Some (a_ports a, length l)
+  | OSetFz0Vec _ _ l => Some (a_ports a, length l)
+  | _ => None
+  end.
+Definition vec_ok (a : arr) (o : op V) : Prop :=
+  match vec_need a o with Some (need, have) => need <= have | None => True end.
+
+(* every vector of a history has the documented length at the moment it is passed *)
+Fixpoint vecs_ok (a : arr) (l : list (op V)) : Prop :=
+  match l with
+  | [] => True
+  | o :: r => vec_ok a o /\ vecs_ok (fst (spec_step a o)) r
   end.
 
 (* outcomes of a whole history *)
